@@ -28,7 +28,9 @@ func c09CmdSub() *engine.Sub {
 	return &engine.Sub{
 		Name: "commands-over-every-code-point",
 		Rule: "command.Parse and IsValid on /c, /xc/y and /c/ for every Unicode code point c (0 .. 0x10FFFF without surrogates) and every lone byte 0x80 .. 0xff; for every c with a case mapping (ToLower, ToUpper or ToTitle changes it) or of category Lt, Nl, So, Lm, Mn: additionally as the cmd field of a delegation signed correctly by the issuer, offered to token.FromSealed: every call returns; an error can be printed; non-trivial = all",
-		Bound: func(string) string { return "1,112,064 code points + 128 lone bytes x 3 shapes x 2 functions; ~4,000 signed tokens" },
+		Bound: func(string) string {
+			return "1,112,064 code points + 128 lone bytes x 3 shapes x 2 functions; ~4,000 signed tokens"
+		},
 		Gen: func(tier string, emit func(any) bool) {
 			for lo := 0; lo < 0x110000; lo += 0x4000 {
 				if !emit(&c09CmdCase{Lo: lo, Hi: lo + 0x4000}) {
